@@ -626,6 +626,54 @@ theorem holdsRed_model (cfg : RedCfg) (ord : List Key) (hord : ord.Nodup) :
       List.any_eq_true, List.isEmpty_nil, and_true]
     exact ⟨fun k hk => hne k hk, k, hk, hs, hd⟩
 
+/-- `eraseDups` has no duplicates (not in core 4.33) -/
+theorem nodup_eraseDups {α} [DecidableEq α] (l : List α) : l.eraseDups.Nodup := by
+  suffices h : ∀ n (l : List α), l.length ≤ n → l.eraseDups.Nodup from h _ l (Nat.le_refl _)
+  intro n
+  induction n with
+  | zero =>
+    intro l h
+    have : l = [] := List.eq_nil_of_length_eq_zero (by omega)
+    subst this; simp
+  | succ n ih =>
+    intro l h
+    cases l with
+    | nil => simp
+    | cons a as =>
+      rw [List.eraseDups_cons, List.nodup_cons]
+      refine ⟨?_, ih _ ?_⟩
+      · intro hm
+        have := List.mem_eraseDups.1 hm
+        simp at this
+      · have := List.length_filter_le (fun b => !b == a) as
+        simp only [List.length_cons] at h
+        omega
+
+/-- the keys of the Go map `eventsSet` are pairwise distinct -/
+theorem mapKeys_nodup (events : List RedEvent) : (mapKeys events).Nodup := nodup_eraseDups _
+
+/-- the monitor does not depend on the order in which the event-set keys are listed -/
+theorem holdsRed_perm (cfg : RedCfg) (keys keys' : List Key) (h : keys.Perm keys')
+    (res : RedStatus × List Pending) : holdsRed cfg keys res = holdsRed cfg keys' res := by
+  unfold holdsRed
+  have h1 : ∀ p : Key → Bool, keys.any p = keys'.any p := fun p => h.any_eq
+  have h2 : ∀ k : Key, keys.contains k = keys'.contains k := fun k => h.contains_eq
+  have h3 : ∀ p : Pending → Bool,
+      ((keys.filterMap (pendingOf cfg)).filter (inWindow cfg)).all p =
+      ((keys'.filterMap (pendingOf cfg)).filter (inWindow cfg)).all p :=
+    fun p => ((h.filterMap _).filter _).all_eq
+  simp only [h1, h2, h3]
+
+/-- **The monitor accepts the model for EVERY iteration order of the Go map**: whatever
+    permutation `ord` of the event-set keys the real map iteration produces, the model's result for
+    that order satisfies `holdsRed` as the driver evaluates it (on `mapKeys events`). No side
+    hypothesis: `mapKeys` is duplicate-free. -/
+theorem holdsRed_model_any_order (cfg : RedCfg) (events : List RedEvent) (ord : List Key)
+    (h : ord.Perm (mapKeys events)) :
+    holdsRed cfg (mapKeys events) (findPendingRedemptions cfg ord) = true := by
+  rw [← holdsRed_perm cfg ord (mapKeys events) h]
+  exact holdsRed_model cfg ord (h.nodup_iff.2 (mapKeys_nodup events))
+
 /-! ## proposal generator -/
 
 /-- **C33 `generate_spec`**: `Generate` computes exactly `genSpec` — result and run log. -/
@@ -700,6 +748,29 @@ theorem generate_noop (tasks : List Task) (checklist : List Nat)
     rcases hb with hb | ⟨j, u, hb, hu⟩
     · simp [hb, ih']
     · simp [hb, hu, ih']
+
+/-! ## the real tasks inside `Generate` -/
+
+/-- the generator over the real discovery tasks is `genSpec` over their outcomes -/
+theorem full_generate_spec (d : DepStatus × List Deposit) (r : RedStatus × List Pending) (cl : List Nat) :
+    generate (fullTasks d r) cl = genSpec (fullTasks d r) cl := generate_spec _ _
+
+/-- deposits to sweep win over redemptions when the sweep is first on the checklist -/
+theorem full_sweep_first (d : DepStatus × List Deposit) (r : RedStatus × List Pending) (rest : List Nat)
+    (hd : sweepOutcome d = .proposal) : (generate (fullTasks d r) (2 :: rest)).1 = .proposal 0 := by
+  simp [generate, fullTasks, indexOf, hd]
+
+/-- nothing to sweep: the redemption task decides -/
+theorem full_redemption_fallthrough (d : DepStatus × List Deposit) (r : RedStatus × List Pending)
+    (hd : sweepOutcome d = .empty) (hr : redOutcome r = .proposal) :
+    (generate (fullTasks d r) [2, 3]).1 = .proposal 1 := by
+  simp [generate, fullTasks, indexOf, hd, hr]
+
+/-- a discovery error of the first consulted task is the generator's error -/
+theorem full_sweep_error (d : DepStatus × List Deposit) (r : RedStatus × List Pending) (rest : List Nat)
+    (hd : d.1 ≠ .ok) : (generate (fullTasks d r) (2 :: rest)).1 = .error 0 := by
+  have : sweepOutcome d = .error := by simp [sweepOutcome, hd]
+  simp [generate, fullTasks, indexOf, this]
 
 /-! ## monitors accept the model -/
 
